@@ -742,6 +742,7 @@ int main(int argc, char** argv) {
     std::string comp = argv[2];
     auto scripts = vj::read_ndjson(argv[3]);
     FILE* out = fopen(argv[4], "w");
+    setvbuf(out, nullptr, _IOLBF, 1 << 16);      // a sanitizer abort must not swallow the events before it
     vj::install_abort_handlers(out);
     for (auto& s : scripts) {
       const vj::Value& hdr = s["hdr"];
